@@ -59,4 +59,7 @@ def run(ctx: Ctx) -> None:
                        "parser; plus five ground obligations on the live rule table")
     ctx.trust("A-LARK-RESOLVE (only for the structural argument)", "bounded: never counted as proved")
     ground_obligations(ctx)
+    # token languages of the grammar, decided over all of Unicode (sufficient-condition obligations, see checks/tokenlang.py)
+    from checks import tokenlang
+    tokenlang.obligations(ctx, grammars=("condition",))
     run_bounded(ctx, "C01")
